@@ -358,7 +358,7 @@ def explore(cls, version, list_bound=2, max_paths=20000, make=None, discrepancy=
                 stack.append(alt)
             if R.status == 'accepted':
                 accepted.append(R)
-                if first_accept:
+                if first_accept and (first_accept != 'clean' or not R.failures):
                     return {"accepted": accepted, "rejected": rejected, "oof": oof, "paths": total + n,
                             "pruned": pruned[0], "discriminators": []}
             elif R.status == 'rejected':
@@ -448,6 +448,10 @@ def _nested_read(self, istream, kmip_version=enums.KMIPVersion.KMIP_1_0):
     if it.sym.cls is not cls:
         raise OutOfFragmentT("opaque %s read as %s" % (it.sym.cls.__name__, cls.__name__))
     object.__setattr__(self, '_ttlvsym_opaque', it.sym)
+    try:
+        it.sym.read_version = kmip_version
+    except Exception:
+        pass
     self.__class__ = poisoned(type(self))
     istream._cur += 1
 
